@@ -236,9 +236,9 @@ def run(ck):
                          "invariant (exact cross tensor of the chain, enclosing the implementation's value, is asymmetric)", m, key=K_AXIAL)
     ck.extra["exact_cross_tensor_cases"] = len(ccodes)
     # ---------------- vacancy-mediated tensors -----------------------------------------------------------
-    names = ["rect", "oblique1", "square", "mono", "honeycomb", "ortho", "sq2w", "tria", "chiral:p4", "sc", "b2"] + ([] if ck.quick else ["tric", "chiral:p3", "chiral:P4/m", "chiral:p6", "chiral:P-3", "hcp", "fcc", "bcc", "re3", "tet", "hcp-nonideal"])
+    names = ["rect", "oblique1", "square", "mono", "honeycomb", "ortho", "sq2w", "tria", "chiral:p4", "oblique2d", "sc", "b2"] + ([] if ck.quick else ["rect-polar2d", "tria-disp", "polar3w2d", "polar", "tric", "chiral:p3", "chiral:P4/m", "chiral:p6", "chiral:P-3", "hcp", "fcc", "bcc", "re3", "tet", "hcp-nonideal"])
     nvm = 0
-    for rep in range(ck.n(9, 24)):
+    for rep in range(ck.n(10, 28)):
         nm = names[rep % len(names)] if rep < len(names) else rng.choice(names)
         if nm.startswith("chiral:"):
             from . import starcase
@@ -253,7 +253,7 @@ def run(ck):
             th = vm.random_thermo(d, rng, interact=True, site_energies=True)
             if r2 == 1:  # strong / weak exchange
                 th["eneT2"] = th["eneT2"] + rng.choice([-6.0, 6.0])
-            if r2 == 0 and len(sl) == 1 and len(d.OSindices) == 0:
+            if r2 == 0 and len(sl) == 1:
                 # exchange fast enough for the large-omega2 algorithm, inequivalent exchange classes spread over decades
                 # (crystals outside the known large-omega2 failure regimes of C08 only)
                 th["preT2"] = th["preT2"] * 10.0 ** rng.uniform(9, 11) * np.array([10.0 ** rng.uniform(0, 3) for _ in th["preT2"]])
